@@ -71,6 +71,11 @@ pub const ORIGINS: &[&str] = &[
     "http://dot.test/",
     "http://dot.test./",
     "https://dot.test./",
+    // no scheme at all (authority-form, what "a.test:8080".parse::<Uri>() gives when the scheme is
+    // forgotten): not the origin of any URI with a scheme - refused or kept apart, never merged (32..)
+    "a.test:8080",
+    "b.test:80",
+    "a.test:443",
 ];
 
 pub const NEAR_MISS_FROM: usize = 6;
@@ -662,6 +667,21 @@ impl Drop for HConn {
                 // (a shareable connection occupies an idle slot with the pool's own handle for as long as it lives)
                 let peers = w.conns.iter().enumerate().filter(|(i, c)| *i != id && c.okey == okey && c.open && c.handles >= 1 && (c.shareable || c.holders.is_empty())).count();
                 w.conns[id].drop_peers = Some(peers);
+                // C14: the holder's release itself destroyed an open single-use connection (no hand-back
+                // task ever looked at it) while a polled request of the same origin waits for its own
+                // dial - whatever the idle limit is, that request was to be served by this connection
+                let a = w.actor();
+                if matches!(a, Actor::Poll(_) | Actor::Cancel(_)) && !w.conns[id].shareable && w.conns[id].handoffs >= 1 {
+                    let (def_all, _) = w.hungry(&okey, None);
+                    let def: Vec<usize> = def_all.into_iter().filter(|r| w.reqs[*r].dials.iter().any(|d| w.dials[*d].in_flight())).collect();
+                    if !def.is_empty() {
+                        let msg = format!(
+                            "open connection #{id} of {okey} was destroyed at its release ({a:?}, max_idle {}) while requests {def:?} were waiting for their own dials: none of them can be served by it",
+                            w.cfg.max_idle
+                        );
+                        w.violate("C14/a-released-connection-destroyed-while-request-waits", msg);
+                    }
+                }
             }
         }
         let a = w.actor();
@@ -681,6 +701,9 @@ impl Connection<B> for HConn {
         let actor = w.actor();
         let st = w.step;
         if !w.conns[id].open {
+            if w.cfg.ready_hides_close {
+                return Poll::Ready(Ok(()));
+            }
             return Poll::Ready(Err(HErr("closed")));
         }
         if w.conns[id].ready || w.conns[id].shareable {
@@ -832,7 +855,13 @@ impl tower::Service<ExecuteRequest<Pooled<HConn, B>, B>> for HService {
         Poll::Ready(Ok(()))
     }
     fn call(&mut self, req: ExecuteRequest<Pooled<HConn, B>, B>) -> HoldFuture {
-        let (conn, request) = req.into_parts();
+        let (mut conn, request) = req.into_parts();
+        if self.0.lock().unwrap().cfg.holder_polls_ready {
+            // (the result does not matter here: a connection that is not ready is reported by the hand-off monitors)
+            let w = futures_util::task::noop_waker();
+            let mut cx = Context::from_waker(&w);
+            let _ = <Pooled<HConn, B> as Connection<B>>::poll_ready(&mut conn, &mut cx);
+        }
         let rid: usize = request
             .headers()
             .get("x-req")
@@ -1007,6 +1036,18 @@ pub struct PoolCfg {
     /// that waited on an "HTTP/2" attempt are then served one after the other
     #[serde(default)]
     pub single_use: bool,
+    /// the holder of a connection waits for readiness *through the pooled handle* (`poll_ready`, as
+    /// `ConnectionExt::when_ready` does) before it sends its request, instead of sending at once
+    #[serde(default)]
+    pub holder_polls_ready: bool,
+    /// `poll_ready` does not notice that the peer closed the connection (as the crate's own mock
+    /// connection: always `Ok`); `is_open` - the documented authority - does
+    #[serde(default)]
+    pub ready_hides_close: bool,
+    /// how the pooling service is put together: 0 `ConnectionPoolService::new`, 1.. through
+    /// `ConnectionPoolLayer` with one or two configuration calls - the last call decides
+    #[serde(default)]
+    pub build_path: u8,
 }
 fn yes() -> bool {
     true
@@ -1082,7 +1123,24 @@ impl Sim {
         pc.idle_timeout = cfg.idle_timeout_ms.map(|t| if t == u64::MAX { Duration::MAX } else { Duration::from_millis(t) });
         pc.max_idle_per_host = cfg.max_idle;
         pc.continue_after_preemption = cfg.cont;
-        let svc = ConnectionPoolService::new(HTransport(w.clone()), HProtocol(w.clone()), HService(w.clone()), pc);
+        // some other configuration, overridden by the later call in every path that mentions it
+        let mut other = PoolConfig::default();
+        other.idle_timeout = if pc.idle_timeout.is_none() { Some(Duration::from_millis(1)) } else { None };
+        other.max_idle_per_host = if cfg.max_idle >= 3 { 1 } else { 32 };
+        other.continue_after_preemption = !cfg.cont;
+        let layer = || hyperdriver::client::ConnectionPoolLayer::<_, _, B>::new(HTransport(w.clone()), HProtocol(w.clone()));
+        let inner = HService(w.clone());
+        use tower::Layer as _;
+        let svc = match cfg.build_path % 8 {
+            0 => ConnectionPoolService::new(HTransport(w.clone()), HProtocol(w.clone()), inner, pc),
+            1 => layer().with_pool(pc).layer(inner),
+            2 => layer().with_optional_pool(Some(pc)).layer(inner),
+            3 => layer().with_pool(other).with_optional_pool(Some(pc)).layer(inner),
+            4 => layer().with_optional_pool(Some(other)).with_pool(pc).layer(inner),
+            5 => layer().without_pool().with_pool(pc).layer(inner),
+            6 => layer().with_pool(other).with_pool(pc).layer(inner),
+            _ => layer().with_optional_pool(None).with_optional_pool(Some(pc)).layer(inner),
+        };
         Sim { w, svc, slots: vec![], cfg, noop: 0, total: 0 }
     }
 
@@ -2336,7 +2394,7 @@ pub fn corpus_mutation_strategy(seeds: Vec<PoolCase>, wt: Weights) -> impl Strat
         prop_oneof![3 => Just(None), 1 => cfg_any_strategy().prop_map(Some)],
     )
         .prop_map(move |(i, edits, cfg)| {
-            let mut case = seeds.get(i).cloned().unwrap_or(PoolCase { cfg: PoolCfg { idle_timeout_ms: None, max_idle: 32, cont: true, req_timeout_ms: None, open_is_ready: true, caller_host: 0, single_use: false }, ops: vec![] });
+            let mut case = seeds.get(i).cloned().unwrap_or(PoolCase { cfg: PoolCfg { idle_timeout_ms: None, max_idle: 32, cont: true, req_timeout_ms: None, open_is_ready: true, caller_host: 0, single_use: false, holder_polls_ready: false, ready_hides_close: false, build_path: 0 }, ops: vec![] });
             for (kind, pos, op) in edits {
                 let len = case.ops.len();
                 let at = if len == 0 { 0 } else { pos as usize * len >> 16 };
@@ -2390,6 +2448,9 @@ pub fn cfg_plain_strategy() -> impl Strategy<Value = PoolCfg> {
         open_is_ready,
         caller_host: 0,
         single_use: false,
+        holder_polls_ready: false,
+        ready_hides_close: false,
+        build_path: 0,
     })
 }
 
@@ -2402,6 +2463,9 @@ pub fn cfg_timeout_strategy() -> impl Strategy<Value = PoolCfg> {
         open_is_ready: true,
         caller_host: 0,
         single_use: false,
+        holder_polls_ready: false,
+        ready_hides_close: false,
+        build_path: 0,
     })
 }
 
@@ -2414,6 +2478,9 @@ pub fn cfg_expiry_strategy() -> impl Strategy<Value = PoolCfg> {
         open_is_ready: true,
         caller_host: 0,
         single_use: false,
+        holder_polls_ready: false,
+        ready_hides_close: false,
+        build_path: 0,
     })
 }
 
@@ -2460,7 +2527,7 @@ pub fn expiry_scenario_strategy() -> impl Strategy<Value = PoolCase> {
             for j in 0..probes {
                 ops.push(Op::Poll(((j * 65536) / probes) as u16 + 1));
             }
-            PoolCase { cfg: PoolCfg { idle_timeout_ms: timeout, max_idle: 32, cont, req_timeout_ms: None, open_is_ready: true, caller_host: 0, single_use: false }, ops }
+            PoolCase { cfg: PoolCfg { idle_timeout_ms: timeout, max_idle: 32, cont, req_timeout_ms: None, open_is_ready: true, caller_host: 0, single_use: false, holder_polls_ready: false, ready_hides_close: false, build_path: 0 }, ops }
         })
 }
 
@@ -2491,7 +2558,7 @@ pub fn expiry_whole_second_strategy() -> impl Strategy<Value = PoolCase> {
         for j in 0..probes {
             ops.push(Op::Poll(((j * 65536) / probes) as u16 + 1));
         }
-        PoolCase { cfg: PoolCfg { idle_timeout_ms: timeout, max_idle: 32, cont, req_timeout_ms: None, open_is_ready, caller_host: 0, single_use: false }, ops }
+        PoolCase { cfg: PoolCfg { idle_timeout_ms: timeout, max_idle: 32, cont, req_timeout_ms: None, open_is_ready, caller_host: 0, single_use: false, holder_polls_ready: false, ready_hides_close: false, build_path: 0 }, ops }
     })
 }
 
@@ -2517,7 +2584,7 @@ pub fn many_origins_strategy(max_ops: usize) -> impl Strategy<Value = PoolCase> 
     )
         .prop_map(|(n, mut ops, cont)| {
             ops.insert(0, Op::Sweep { n });
-            PoolCase { cfg: PoolCfg { idle_timeout_ms: None, max_idle: 32, cont, req_timeout_ms: None, open_is_ready: true, caller_host: 0, single_use: false }, ops }
+            PoolCase { cfg: PoolCfg { idle_timeout_ms: None, max_idle: 32, cont, req_timeout_ms: None, open_is_ready: true, caller_host: 0, single_use: false, holder_polls_ready: false, ready_hides_close: false, build_path: 0 }, ops }
         })
 }
 
@@ -2547,7 +2614,7 @@ pub fn many_origins_mid_strategy(max_ops: usize) -> impl Strategy<Value = PoolCa
         .prop_map(|(n, mut before, after, cont, max_idle)| {
             before.push(Op::Sweep { n });
             before.extend(after);
-            PoolCase { cfg: PoolCfg { idle_timeout_ms: None, max_idle, cont, req_timeout_ms: None, open_is_ready: true, caller_host: 0, single_use: false }, ops: before }
+            PoolCase { cfg: PoolCfg { idle_timeout_ms: None, max_idle, cont, req_timeout_ms: None, open_is_ready: true, caller_host: 0, single_use: false, holder_polls_ready: false, ready_hides_close: false, build_path: 0 }, ops: before }
         })
 }
 
@@ -2559,7 +2626,7 @@ pub fn near_origins_strategy(wt: Weights, max_ops: usize) -> impl Strategy<Value
         let wt = Weights { origins: k as u8, ..wt };
         (
             proptest::collection::vec(0u16..=u16::MAX, k),
-            0u8..7,
+            0u8..8,
             cfg_any_strategy(),
             proptest::collection::vec(op_strategy(wt), 0..max_ops),
         )
@@ -2568,10 +2635,11 @@ pub fn near_origins_strategy(wt: Weights, max_ops: usize) -> impl Strategy<Value
                 // near misses), the ones with user information, the trailing-dot ones, the IP literals - or
                 // draw from the whole table
                 let pool: Vec<u8> = match family {
-                    0 | 1 => vec![0, 1, 2, 4, 6, 7, 8, 9, 10, 11, 18, 19, 20, 21, 22, 23, 24],
+                    0 | 1 => vec![0, 1, 2, 4, 6, 7, 8, 9, 10, 11, 18, 19, 20, 21, 22, 23, 24, 32, 34],
                     2 => vec![25, 26, 27, 28],
                     3 => vec![29, 30, 31],
                     4 => vec![12, 13, 14, 15, 16],
+                    5 => vec![2, 32, 3, 33, 6, 34, 22],
                     _ => (0..ORIGINS.len() as u8).collect(),
                 };
                 let chosen: Vec<u8> = picks.iter().map(|r| pool[idx(*r, pool.len()).unwrap_or(0)]).collect();
@@ -2593,8 +2661,8 @@ pub fn near_origins_strategy(wt: Weights, max_ops: usize) -> impl Strategy<Value
 /// Small idle lists (1 or 2) together with the "open = not closed" connection flavour: the
 /// combination in which a released-but-busy connection, a closed idle entry and the idle bound meet.
 pub fn cfg_small_idle_strategy() -> impl Strategy<Value = PoolCfg> {
-    (prop_oneof![Just(None), Just(Some(0u64)), Just(Some(3_600_000u64))], prop_oneof![Just(1usize), Just(2)], any::<bool>(), prop_oneof![1 => Just(true), 3 => Just(false)])
-        .prop_map(|(t, m, cont, open_is_ready)| PoolCfg { idle_timeout_ms: t, max_idle: m, cont, req_timeout_ms: None, open_is_ready, caller_host: 0, single_use: false })
+    (prop_oneof![Just(None), Just(Some(0u64)), Just(Some(3_600_000u64))], prop_oneof![Just(1usize), Just(2)], any::<bool>(), prop_oneof![1 => Just(true), 3 => Just(false)], any::<bool>())
+        .prop_map(|(t, m, cont, open_is_ready, holder_polls_ready)| PoolCfg { idle_timeout_ms: t, max_idle: m, cont, req_timeout_ms: None, open_is_ready, caller_host: 0, single_use: false, holder_polls_ready, ready_hides_close: false, build_path: 0 })
 }
 
 pub fn cfg_any_strategy() -> impl Strategy<Value = PoolCfg> {
@@ -2603,8 +2671,11 @@ pub fn cfg_any_strategy() -> impl Strategy<Value = PoolCfg> {
         prop_oneof![Just(0usize), Just(1), Just(2), Just(3), Just(32)],
         any::<bool>(),
         prop_oneof![2 => Just(true), 1 => Just(false)],
+        prop_oneof![2 => Just(false), 1 => Just(true)],
+        prop_oneof![3 => Just(false), 1 => Just(true)],
+        prop_oneof![2 => Just(0u8), 1 => 1u8..8],
     )
-        .prop_map(|(t, m, cont, open_is_ready)| PoolCfg { idle_timeout_ms: t, max_idle: m, cont, req_timeout_ms: None, open_is_ready, caller_host: 0, single_use: false })
+        .prop_map(|(t, m, cont, open_is_ready, holder_polls_ready, ready_hides_close, build_path)| PoolCfg { idle_timeout_ms: t, max_idle: m, cont, req_timeout_ms: None, open_is_ready, caller_host: 0, single_use: false, holder_polls_ready, ready_hides_close, build_path })
 }
 
 // ------------------------------------------------------------------------------------------------
